@@ -268,7 +268,7 @@ func c05(c *Ctx) {
 		if !ok || rel != "hamt" || fn.Synthetic != "" {
 			continue
 		}
-		if !strings.HasPrefix(strings.ToLower(fn.Name()), "lookup") {
+		if !c.onLookupPath(fn) {
 			continue
 		}
 		k := 0
@@ -744,7 +744,7 @@ func (c *Ctx) checkSingleDescent(fetch map[*ssa.Function]bool) {
 		if !ok || rel != "hamt" || fn.Synthetic != "" {
 			continue
 		}
-		isLookup := strings.HasPrefix(strings.ToLower(fn.Name()), "lookup") && fn.Name() != "LookupByIndex"
+		isLookup := c.onLookupPath(fn)
 		if !isLookup && !loaders[fn] {
 			continue
 		}
@@ -793,4 +793,49 @@ func (c *Ctx) mentionsDeclaredSizes(h *ssa.Function, reach map[*ssa.Function]boo
 		}
 	}
 	return
+}
+
+// onLookupPath: fn is one of the name-lookup entry points (LookupByString/ByNode/BySegment, native Lookup) of a node type
+// of package hamt, or an unexported function of that package reached from them by static calls (the descent).
+func (c *Ctx) onLookupPath(fn *ssa.Function) bool {
+	if c.lookupPath == nil {
+		c.lookupPath = map[*ssa.Function]bool{}
+		var queue []*ssa.Function
+		for _, f := range c.G.Funcs() {
+			rel, ok := c.P.PkgOf(f)
+			if !ok || rel != "hamt" || f.Signature.Recv() == nil {
+				continue
+			}
+			switch f.Name() {
+			case "LookupByString", "LookupByNode", "LookupBySegment", "Lookup":
+				c.lookupPath[f] = true
+				queue = append(queue, f)
+			}
+		}
+		for len(queue) > 0 {
+			f := queue[0]
+			queue = queue[1:]
+			for _, e := range c.G.Out[f] {
+				if e.Kind != "static" || c.lookupPath[e.Callee] {
+					continue
+				}
+				if rel, ok := c.P.PkgOf(e.Callee); !ok || rel != "hamt" {
+					continue
+				}
+				// the descent: functions that take the key string or the hash cursor; stop at loaders (they are checked as loaders)
+				takesKey := false
+				for _, p := range e.Callee.Params {
+					if isBasic(p.Type(), types.String) || c.statefulCursorPtr(p.Type()) {
+						takesKey = true
+					}
+				}
+				if !takesKey {
+					continue
+				}
+				c.lookupPath[e.Callee] = true
+				queue = append(queue, e.Callee)
+			}
+		}
+	}
+	return c.lookupPath[fn]
 }
